@@ -1098,7 +1098,9 @@ impl<'a> TLVSequence<'a> {
 
             Ok(len)
         } else {
-            self.value_len(control)
+            // Go through `value`, so that a length which points beyond
+            // the end of the data is reported as an error rather than returned
+            self.value(control).map(|value| value.len())
         }
     }
 
